@@ -142,3 +142,34 @@ theorem btStep_image {mtch : Template → Schedule → Except Err Bool} {checks 
     exact him1
 
 end SnaxVerif.Sched
+
+namespace SnaxVerif.Sched
+open List
+
+/-- what the constructor accepts is well-formed: the `WF` hypothesis of the C03/C16 theorems is exactly the
+guard of `SchedulePattern.__init__` -/
+theorem construct_wf {bounds : List Int} {ops : List Operand} {s : Schedule}
+    (h : construct bounds ops = .ok s) : WF s := by
+  unfold construct at h
+  split at h
+  · simp at h
+  · next hb =>
+    split at h
+    · simp at h
+    · next ho =>
+      simp only [Except.ok.injEq] at h
+      subst h
+      refine ⟨?_, ?_⟩
+      · intro b hbm
+        simp only [mem_map] at hbm
+        obtain ⟨z, hz, rfl⟩ := hbm
+        have : ¬ z ≤ 0 := by
+          intro hz0
+          exact hb (List.any_eq_true.mpr ⟨z, hz, by simpa using hz0⟩)
+        omega
+      · intro o hom r hr
+        simp only [length_map]
+        by_contra hne
+        exact ho (List.any_eq_true.mpr ⟨o, hom, List.any_eq_true.mpr ⟨r, hr, by simpa using hne⟩⟩)
+
+end SnaxVerif.Sched
